@@ -144,6 +144,10 @@ theorem grace_never_decreases (ops : List Op) (c : Cfg) (x : DistCfg)
           simp only [step] at hstep
           cases hstep
           exact ⟨x, hx, Nat.le_refl _⟩
+        | migrate =>
+          simp only [step] at hstep
+          cases hstep
+          exact ⟨x, hx, Nat.le_refl _⟩
       obtain ⟨y, hy, hxy⟩ := key
       obtain ⟨z, hz, hyz⟩ := ih c' y hc' hy hno'
       exact ⟨z, hz, Nat.le_trans hxy hyz⟩
@@ -194,6 +198,9 @@ theorem no_vault_over_token_factory_asset (height : Nat) (ops : List Op) (hs : o
     split
     · next c' h => exact ih c' hs.2 (step_no_token_factory_vault hs.1 hc h)
     · exact ih c hs.2 hc
+
+/-- a migration (of any contract, from any stored version) rewrites no configuration -/
+theorem migrate_keeps_config (c : Cfg) : step c .migrate = .ok c := rfl
 
 /-! ### what each validator accepts, exactly -/
 
